@@ -200,13 +200,11 @@ fn c16_q_string_decode_equals_reference_12() {
         Some((off, l)) => {
             vcover!(l == 2 && b[0] & 3 == 2);
             vassert!(e.str().is_ok() == is_octets, "ROLE:str-accessor-accepts-exactly-octet-strings");
-            match r {
-                Ok(s) => {
-                    vassert!(s.len() == l, "ROLE:string-length-equals-reference");
-                    let o = unsafe { s.as_ptr().offset_from(b.as_ptr()) };
-                    vassert!(l == 0 || o == off as isize, "ROLE:string-value-position-equals-reference");
-                }
-                Err(_) => vassert!(false, "ROLE:well-formed-string-accepted"),
+            vassert!(r.is_ok(), "ROLE:well-formed-string-accepted");
+            if let Ok(s) = r {
+                vassert!(s.len() == l, "ROLE:string-length-equals-reference");
+                let o = unsafe { s.as_ptr().offset_from(b.as_ptr()) };
+                vassert!(l == 0 || o == off as isize, "ROLE:string-value-position-equals-reference");
             }
         }
         None => {
@@ -346,19 +344,16 @@ fn c16_t_tlv_iter_nested_skeleton() {
     let mut n = 0;
     let mut depth: i32 = 0;
     for x in e.tlv_iter(TLVTag::Anonymous) {
-        match x {
-            Ok(tlv) => {
-                if tlv.value.value_type().is_container() {
-                    depth += 1;
-                } else if tlv.value.value_type().is_container_end() {
-                    depth -= 1;
-                }
-                vassert!(depth >= 0, "ROLE:tlv-iter-container-markers-balanced");
-                if wb.tlv(&tlv.tag, &tlv.value).is_err() {
-                    vassert!(false, "ROLE:tlv-iter-output-fits-the-original-size");
-                }
+        vassert!(x.is_ok(), "ROLE:tlv-iter-on-well-formed-input-yields-no-error");
+        if let Ok(tlv) = x {
+            if tlv.value.value_type().is_container() {
+                depth += 1;
+            } else if tlv.value.value_type().is_container_end() {
+                depth -= 1;
             }
-            Err(_) => vassert!(false, "ROLE:tlv-iter-on-well-formed-input-yields-no-error"),
+            vassert!(depth >= 0, "ROLE:tlv-iter-container-markers-balanced");
+            let fits = wb.tlv(&tlv.tag, &tlv.value).is_ok();
+            vassert!(fits, "ROLE:tlv-iter-output-fits-the-original-size");
         }
         n += 1;
         vassert!(n <= 6, "ROLE:tlv-iter-terminates");
